@@ -878,10 +878,6 @@ func (join *invertibleTypeJoin) invertJoinDirectionWithIndex(
 }
 
 func addFilterOnIDField(f *mapper.Filter, propIndex int, docID string) *mapper.Filter {
-	if f == nil {
-		f = mapper.NewFilter()
-	}
-
 	propertyIndex := &mapper.PropertyIndex{Index: propIndex}
 	filterConditions := map[connor.FilterKey]any{
 		propertyIndex: map[connor.FilterKey]any{
@@ -889,9 +885,15 @@ func addFilterOnIDField(f *mapper.Filter, propIndex int, docID string) *mapper.F
 		},
 	}
 
-	filter.RemoveField(f, mapper.Field{Index: propIndex})
-	f.Conditions = filter.MergeConditions(f.Conditions, filterConditions)
-	return f
+	// The given filter is the sub-selection's own filter and is used again for the next lookup: it
+	// must not be changed. A condition it holds on the relation id field itself is part of the
+	// request and has to hold in addition to the one added here.
+	result := mapper.NewFilter()
+	if f != nil {
+		result.Conditions = filter.Copy(f.Conditions)
+	}
+	result.Conditions = filter.MergeConditions(result.Conditions, filterConditions)
+	return result
 }
 
 func getNode[T planNode](plan planNode) T {
